@@ -118,6 +118,31 @@ def rule_workqueue(ctx, rep, rid):
     pat.require(len(stop_bits) == 1, "destroy: STOP request")
     STOP = stop_bits.pop()
     worker_rules(rep, rid, w, None, "urcu_workqueue.flags", "urcu_workqueue.futex", "urcu_workqueue.cbs_head", "urcu_workqueue.cbs_tail", "urcu_work.func", STOP)
+    # RT polarity (as for the call_rcu helper): queue_work skips the wake-up of an RT work queue, so only a non-RT worker may arm / sleep on the futex
+    known = set()
+    for g_ in ("urcu_workqueue_destroy", "urcu_workqueue_pause_worker", "workqueue_thread"):
+        gg = ctx.mod("cds", "flat").fn(g_)
+        if gg is not None:
+            known |= set(ir.const_of(gg, e.val) for e in pat.accesses(gg, "urcu_workqueue.flags", ("rmw",)) if e.rop == "or")
+    rtbits = set()
+    for b in w.blocks:
+        for s_ in b.succ:
+            for a in ir.edge_atoms(w, b.id, s_):
+                if len(a) == 3 and a[0] in ("eq", "ne") and a[2] == ("c", 0) and a[1][0] == "bin" and a[1][1] == "and" and a[1][3][0] == "c" and pat.is_load_expr(a[1][2], "urcu_workqueue.flags") and a[1][3][1] not in known:
+                    rtbits.add(a[1][3][1])
+    if len(rtbits) == 1:
+        RT = rtbits.pop()
+        from .. import waitloop as _wl
+        sites = list(_wl.wait_sites(w)) + [e.inst for e in pat.accesses(w, "urcu_workqueue.futex", ("rmw",))]
+        for i in sites:
+            lv = [a for a in pat.dom_leaf_atoms(w, i) if len(a) == 3 and a[2] == ("c", 0) and a[1][0] == "bin" and a[1][1] == "and" and a[1][3] == ("c", RT) and pat.is_load_expr(a[1][2], "urcu_workqueue.flags")]
+            if not lv:
+                rep.unk(rid, "worker.futex-only-if-not-RT@%d" % i.line, "the worker's use of its futex is not guarded by the RT flag in a form this rule recognises")
+            else:
+                rep.check(all(a[0] == "eq" for a in lv), rid, "worker.futex-only-if-not-RT@%d" % i.line, "the worker arms / sleeps on its futex only when the work queue is not RT",
+                          "the worker arms / sleeps on its futex exactly when the work queue *is* RT: queue_work never wakes an RT worker - queued work is never executed", [i.where()])
+    else:
+        rep.unk(rid, "worker.futex-only-if-not-RT", "RT flag bit of the work queue not identified (%s)" % sorted(rtbits))
     # ---- C. creation: the worker thread exists ----------------------------------------------------------------------------
     for name in ("urcu_workqueue_create", "urcu_workqueue_create_worker"):
         c = _f(ctx, name)
